@@ -129,3 +129,38 @@ func firstDiff(a, b string) string {
 	}
 	return fmt.Sprintf("first difference at byte %d: …%q vs …%q", i, trunc(a[lo:], 160), trunc(b[lo:], 160))
 }
+
+// inspectNode writes what the public accessors say about one node (no
+// recursion): used by reader tasks that share a tree.
+func inspectNode(sb *strings.Builder, src []byte, n commonmark.Node) {
+	if b := n.Block(); b != nil {
+		fmt.Fprintf(sb, "B%d%v h%d o%v t%v n%d", b.Kind(), b.Span(), b.HeadingLevel(), b.IsOrderedList(), b.IsTightList(), b.ListItemNumber(src))
+		if info := b.InfoString(); info != nil {
+			fmt.Fprintf(sb, " info=%q", info.Text(src))
+		}
+		fmt.Fprintf(sb, " c%d|", b.ChildCount())
+		return
+	}
+	in := n.Inline()
+	if in == nil {
+		sb.WriteString("NIL|")
+		return
+	}
+	fmt.Fprintf(sb, "I%d%v w%d r%q", in.Kind(), in.Span(), in.IndentWidth(), in.LinkReference())
+	if d := in.LinkDestination(); d != nil {
+		fmt.Fprintf(sb, " d%q", d.Text(src))
+	}
+	if t := in.LinkTitle(); t != nil {
+		fmt.Fprintf(sb, " t%q", t.Text(src))
+	}
+	fmt.Fprintf(sb, " x%q c%d|", in.Text(src), in.ChildCount())
+}
+
+func sortedRefKeys(m commonmark.ReferenceMap) []string {
+	keys := make([]string, 0, len(m))
+	for k := range m {
+		keys = append(keys, k)
+	}
+	sort.Strings(keys)
+	return keys
+}
